@@ -21,14 +21,27 @@ def fr_pkg(name):
 
 
 def build_gosym():
-    bdir = os.path.join(OUT, "build", "gosym")
+    # per-process build directory and binary: several checks may run at the same time
+    bdir = os.path.join(OUT, "build", "gosym-%d" % os.getpid())
     if os.path.isdir(bdir):
-        shutil.rmtree(bdir)
+        shutil.rmtree(bdir, ignore_errors=True)
     shutil.copytree(ENGINE, bdir)
-    binp = os.path.join(OUT, "bin", "gosym")
+    binp = os.path.join(OUT, "bin", "gosym-%d" % os.getpid())
     os.makedirs(os.path.dirname(binp), exist_ok=True)
     t = time.time()
-    common.sh(["go", "build", "-o", binp, "."], cwd=bdir)
+    try:
+        common.sh(["go", "build", "-o", binp, "."], cwd=bdir)
+    finally:
+        shutil.rmtree(bdir, ignore_errors=True)
+    import atexit
+    atexit.register(lambda: os.path.exists(binp) and os.remove(binp))
+    # keep a copy under the stable name for manual use (atomic replace)
+    try:
+        tmp = binp + ".tmp"
+        shutil.copy2(binp, tmp)
+        os.replace(tmp, os.path.join(OUT, "bin", "gosym"))
+    except OSError:
+        pass
     return binp, time.time() - t
 
 
